@@ -8,13 +8,17 @@ every completed import of a path yields the same object, a module whose body is 
 ImportError, load/compile failures are ImportErrors that register nothing, a failed import is retried from
 scratch, the active module is the module of the running closure, built-ins are in every started module.
 The frame stack of M is the whole caller chain of fibers (is_loading_module walks it; handlers are per fiber).
-Refinement (ModRefine.v): for EVERY program of the mini-language, module map and fuel the Mechanism evaluator shows
-what the Spec evaluator shows (C14_mech_refines_spec) - so impl == M on a case implies impl == S on it.
+Refinement (ModRefine.v): for EVERY escape-free program of the mini-language (no function value stored in another
+module), module map and fuel the Mechanism evaluator shows what the Spec evaluator shows (C14_mech_refines_spec_partial) -
+so impl == M on such a case implies impl == S on it; programs in which a function outlives the failed load that defined
+it (Spec: it keeps the RETIRED instance's globals) are compared with both evaluators case by case.
 Tie: (a) translator: stage order / literals / load_frame sites of vm.rs + compiler.rs regenerated into
 YVGen.ImportArms and compared by computation; (b) impl == M: harness `mods` (host loader serving a module
 map, LOAD records) on generated module programs, loader-call sequence + output + outcome against
 ModLang.eval_mech (vm_compute); (c) impl == S: the same against ModLang.eval_spec; plus the
-tests/scripts/modules corpus and two fixed probes that must pass (import at the frame limit, re-import after a failed body)."""
+tests/scripts/modules corpus and two fixed probes that must pass (import at the frame limit, re-import after a failed body);
+(d) the built-in file-system loader (harness `c17fs`: no host loader, a fresh temporary directory): directed cases for every
+kind of unreadable module (S: an ImportError the importer can catch) and ModLang programs served as files."""
 import binascii
 import itertools
 import json
@@ -32,13 +36,17 @@ TRUSTED = [
     "translator/translate_c14.py (token-level reading of start_import_impl, finish_import_impl, load_frame, "
     "call_closure, return_impl, unwind_stack, *_global_impl, init_built_in_globals, import_statement, core.yl)",
     "Modules.v is a hand transcription of those functions; the value stack is abstracted to the import temporaries",
-    "harness `yv` commands mods/compilemod (host loader = map lookup, LOAD log), tools/props/C14.py (generators, comparison)",
+    "harness `yv` commands mods/compilemod (host loader = map lookup, LOAD log), c17fs (harness/src/ext_c17.rs: temporary "
+    "directory, no loader installed), tools/props/C14.py (generators, comparison, file-name function and reason table of the built-in loader)",
     "ModLang.render (Gallina) produces the yarel text that is run: the mini-language semantics is tied to yarel "
     "only through the differential comparison",
 ]
 ASSUMPTIONS = [
     "one interpreter, one run (Vm::reset / a second Vm::execute belong to C15)",
-    "the host loader is a function of the path and reports a missing module as an ImportError (harness, tests, default loader do)",
+    "the host loader is a function of the path and reports a missing module as an ImportError (harness, tests; the built-in "
+    "file loader is checked to do so for every kind of unreadable file)",
+    "built-in file loader: one module per path TEXT (the same file under two spellings is two modules), paths relative to the "
+    "process's current directory, Path::with_extension semantics - current behaviour, followed as M",
     "fibers: only Fiber.new(closure).call() chains (no yield, no resumption); an exception that leaves a fiber ends the run (C09 owns fibers)",
     "generated programs stay below the frame limit; the import at the frame limit is a fixed probe (and a theorem about M)",
 ]
@@ -76,8 +84,10 @@ def enc_stmt(s, out):
         out += [15, s[1]]
     elif k == "fib":
         out += [16, s[1], s[2]]
-    elif k in ("try", "blk"):
-        out += [13 if k == "try" else 14]
+    elif k == "saf":
+        out += [17, s[1], s[2], s[3]]
+    elif k in ("try", "blk", "lam"):
+        out += [{"try": 13, "blk": 14, "lam": 18}[k]]
         for b in s[1]:
             enc_stmt(b, out)
         out += [0]
@@ -110,7 +120,7 @@ def wire(prog):
 def walk(stmts):
     for s in stmts:
         yield s
-        if s[0] in ("try", "blk"):
+        if s[0] in ("try", "blk", "lam"):
             yield from walk(s[1])
         elif s[0] == "fn":
             yield from walk(s[2])
@@ -189,6 +199,7 @@ class Gen:
         self.n = n
         self.nfn = [r.randint(0, 3) if self.kinds[i] == "ok" else 0 for i in range(n)]
         self.clash = r.random() < 0.8
+        self.escapes = r.random() < 0.35
         prog = []
         for i in range(n):
             if self.kinds[i] == "missing":
@@ -235,6 +246,13 @@ class Gen:
                 out.append(("pa", code, 0 if r.random() < 0.8 else r.randint(0, 2)))
             elif k < 0.55:
                 out.append(("sa", code, 0 if r.random() < 0.7 else r.randint(0, 2), r.randint(50, 99)))
+            elif k < 0.63 and self.escapes:
+                # a function value leaves its module (slot f9 of the other module); only the main script's top level calls
+                # the slot, and a function body never does: the rank argument for termination is untouched
+                if self.cur_nfn and not infn:
+                    out.append(("saf", code, 9, r.randrange(self.cur_nfn)))
+                elif self.cur_main_top:
+                    out.append(("calla", code, 9))
             else:
                 nf = self.nfn[j] if j < self.n else 0
                 if infn and (j, 0) <= rank:
@@ -293,6 +311,9 @@ class Gen:
                         out.append(("call", r.choice(cand)))
             elif k < 0.86:
                 out.append(("bi", r.choice([0, 1, 2, 0, 1, 2, 3])))
+            elif k < 0.88 and depth < 2:
+                # a closure created and called at run time: its module is the running code's module
+                out.append(("lam", self.block(i, depth + 1, rank, infn, aliases, set(), True, 3)))
             elif k < 0.90 and depth < 2:
                 out.append(("blk", self.block(i, depth + 1, rank, infn, aliases, set(), True, 3)))
             elif k < 0.94 and depth < 2:
@@ -306,6 +327,8 @@ class Gen:
     def module(self, i):
         r = self.rng
         tops = []
+        self.cur_nfn = self.nfn[i]
+        self.cur_main_top = False
         if self.clash or r.random() < 0.5:
             tops.append(("def", 0, 10 * i + 1))
         if r.random() < 0.4:
@@ -320,7 +343,9 @@ class Gen:
                 body = self.block(i, 1, (i, f), True, {}, set(), True, 3)
             tops.append(("fn", f, body))
         tops.append(("tag", 10 * i))
+        self.cur_main_top = (i == 0)
         tops += self.block(i, 0, (i, -1), False, {}, set(), False, 6)
+        self.cur_main_top = False
         if r.random() < 0.7:
             tops.append(("pv", 0))
         # late definitions: functions and variables defined after the imports (visible only once the body got that far)
@@ -354,7 +379,8 @@ def coq_preamble(cm):
     return ("From YVGen Require Import Consts ImportArms.\nOpen Scope string_scope.\n"
             "Definition CM : list (list (list string)) := %s.\n"
             "Definition RC (w : string) := run_case CM gen_builtin_names gen_core_class_names FRAMES_MAX "
-            "gen_registry_hit_checks_loading gen_builtins_init_guarded gen_loading_walks_chain w.\n" % tab)
+            "gen_registry_hit_checks_loading gen_builtins_init_guarded gen_loading_walks_chain "
+            "gen_closure_takes_active_module w.\n" % tab)
 
 
 def eval_models(progs, cm, tag):
@@ -525,6 +551,7 @@ class Checker:
         import time
         t0 = time.time()
         models, recs = self.observe(progs, tag, gc_always_every=7)
+        self.last_models = models
         log("[C14] %s: %d programs observed in %.1fs" % (tag, len(progs), time.time() - t0))
         for p, m, rec in zip(progs, models, recs):
             self.evals += 1
@@ -549,7 +576,7 @@ class Checker:
                 ctx.violation("use of a reclaimed object while running a module program", input=w, main=m["main"], modules=m["mods"])
             if not ok_s:
                 self.mism_s += 1
-                if len([v for v in ctx.violations if v.get("family")]) < 5:
+                if len([v for v in ctx.violations if v.get("family")]) < 5 and len([v for v in ctx.violations if v.get("family") == family]) < 2:
                     ctx.violation("module program behaves differently from the Spec (load-once / same object / own globals / ImportError)",
                                   input=w, main=m["main"], modules=m["mods"], expected=m["spec"], actual=impl_str(rec),
                                   model=m["mech"], family=family, prog=p)
@@ -629,6 +656,204 @@ def check_corpus(ch):
         if len(set(ok_paths)) != len(ok_paths):
             ctx.violation("tests/scripts/modules/%s.yl: a loadable module was loaded twice" % name, input=name, actual=loads)
     return n
+
+
+# ------------------------------------------------------------------------------------------------
+# the built-in FILE-SYSTEM loader (vm.rs default_read_module_source, what the CLI uses): harness command `c17fs`
+# (harness/src/ext_c17.rs) runs a program with NO host loader installed inside a fresh temporary directory.
+#   M (current behaviour, followed): module "p" is the file Path(p).with_extension("yl") relative to the process's
+#     current directory (also for imports made by a module in a sub-directory); a module is known by the path TEXT of the
+#     import statement: "a", "./a" and "sub/../a" are three modules (the file's top-level code runs once for each);
+#     the message is "Unable to read file '<file>' (<reason>)." with reason by io::ErrorKind, "other" for the rest.
+#   S: an unreadable module (missing, path through a plain file, a directory of that name, an over-long name, not UTF-8,
+#     not permitted) is an ImportError that the importing code can catch, and the run goes on; a readable module behaves
+#     exactly as the same source served by a host loader (ModLang programs: Spec = in-memory run = file-system run).
+
+
+def hxb(b):
+    return binascii.hexlify(b if isinstance(b, bytes) else b.encode()).decode()
+
+
+def fs_line(main, items, opts="-"):
+    """items: ('f'|'x', path, content) | ('d', path)"""
+    parts = []
+    for it in items:
+        parts.append("d:" + hxb(it[1]) if it[0] == "d" else "%s:%s=%s" % (it[0], hxb(it[1]), hxb(it[2])))
+    return "c17fs %s %s %s" % (opts, hx(main), " ".join(parts))
+
+
+def fs_file_of(path):
+    """Path::new(path).with_extension("yl") for the paths used here"""
+    d, _, base = path.rpartition("/")
+    stem = base.rsplit(".", 1)[0] if "." in base.lstrip(".") and not base.endswith(".") else base
+    return (d + "/" if d or path.startswith("/") else "") + stem + ".yl"
+
+
+def fs_unreadable(path, reason):
+    return ["<class ImportError>", "Unable to read file '%s' (%s)." % (fs_file_of(path), reason)]
+
+
+LONG_NAME = "m" * 300
+FS_FILES = [
+    ("f", "a.yl", 'print("a body"); var x = 1; fn get() { return x; }'),
+    ("f", "sub/b.yl", 'print("b body"); var x = 2;'),
+    ("f", "sub/deep/c.yl", 'print("c body"); import "a"; import "sub/b"; var y = a.x + b.x;'),
+    ("f", "sub/deep/rel.yl", 'print("rel body"); import "c";'),
+    ("f", "plain", "var x = 1;"),
+    ("d", "dmod.yl"),
+    ("d", "dir"),
+    ("f", "bin.yl", b'var x = "\xff\xfe";'),
+    ("f", "imp_missing.yl", 'print("im body"); import "gone"; print("not reached");'),
+    ("f", "badsrc.yl", "var = ;"),
+    ("f", "empty.yl", ""),
+    ("x", "locked.yl", 'print("locked body");'),
+]
+# (name, statements, expected lines, 'S' | 'M': what a difference means)
+FS_ATTEMPTS = [
+    ("cwd", 'import "a"; print(a.x);', ["a body", "1", "ok"], "S"),
+    ("subdir", 'import "sub/b"; print(b.x);', ["b body", "2", "ok"], "S"),
+    ("subdir2", 'import "sub/deep/c"; print(c.y);', ["c body", "3", "ok"], "S"),
+    ("same-spelling", 'import "a" as a2; import "a"; print(a2 == a);', ["true", "ok"], "S"),
+    ("dot-slash", 'import "./a" as a3; import "a"; print(a3 == a); a3.x = 5; print(a.x);', ["a body", "false", "1", "ok"], "M"),
+    ("dotdot", 'import "sub/../a" as a4; import "a"; print(a4 == a); print(a4.get());', ["a body", "false", "1", "ok"], "M"),
+    ("dotdot2", 'import "sub/deep/../../sub/b" as b5; import "sub/b"; print(b5 == b);', ["b body", "false", "ok"], "M"),
+    ("relative-to-cwd", 'import "sub/deep/rel";', ["rel body"] + fs_unreadable("c", "file not found"), "M"),
+    ("dotted-name", 'import "a.b" as ab; print(ab.x);', ["a body", "1", "ok"], "M"),
+    ("missing", 'import "nope";', fs_unreadable("nope", "file not found"), "S"),
+    ("missing-in-dir", 'import "sub/nope";', fs_unreadable("sub/nope", "file not found"), "S"),
+    ("missing-dir", 'import "nodir/m";', fs_unreadable("nodir/m", "file not found"), "S"),
+    ("through-plain-file", 'import "plain/inner";', fs_unreadable("plain/inner", "other"), "S"),
+    ("directory-named-like-module", 'import "dmod";', fs_unreadable("dmod", "other"), "S"),
+    ("directory", 'import "dir";', fs_unreadable("dir", "file not found"), "S"),
+    ("over-long-name", 'import "%s";' % LONG_NAME, fs_unreadable(LONG_NAME, "other"), "S"),
+    ("over-long-component", 'import "sub/%s/m";' % LONG_NAME, fs_unreadable("sub/%s/m" % LONG_NAME, "other"), "S"),
+    ("not-utf8", 'import "bin";', fs_unreadable("bin", "invalid data"), "S"),
+    ("absolute-missing", 'import "/nonexistent-yv/m";', fs_unreadable("/nonexistent-yv/m", "file not found"), "S"),
+    ("imports-missing", 'import "imp_missing";', ["im body"] + fs_unreadable("gone", "file not found"), "S"),
+    ("imports-missing-again", 'import "imp_missing";', ["im body"] + fs_unreadable("gone", "file not found"), "S"),
+    ("uncompilable", 'import "badsrc";', ["<class ImportError>", "Error compiling module:", '    [module "badsrc", line 1] ?'], "S"),
+    ("empty-file", 'import "empty"; print(empty);', ['<module "empty">', "ok"], "S"),
+    ("locked", 'import "locked";', None, "S"),
+    ("after", 'import "a"; import "sub/b"; print(a.x + b.x);', ["3", "ok"], "S"),
+]
+FS_UNCAUGHT = [("missing", "nope", "file not found"), ("through-plain-file", "plain/inner", "other"),
+               ("over-long-name", LONG_NAME, "other"), ("directory-named-like-module", "dmod", "other"), ("not-utf8", "bin", "invalid data")]
+
+
+def fs_main(attempts):
+    out = []
+    for i, (_, stmts, _, _) in enumerate(attempts):
+        out.append('fn imp_%d() { print("--"); try { %s print("ok"); } catch e { print(type(e)); print(e.context); } }\nimp_%d();\n' % (i, stmts, i))
+    return "".join(out) + 'print("--"); print("end");\n'
+
+
+def check_fs_cases(ch, only=None):
+    """the directed file-system cases -> number of cases"""
+    ctx = ch.ctx
+    attempts = [a for a in FS_ATTEMPTS if only is None or a[0] == only or a[0] in ("cwd", "after")]
+    main = fs_main(attempts)
+    lines = [fs_line(main, FS_FILES)]
+    unc = [u for u in FS_UNCAUGHT if only is None or u[0] == only]
+    for _, path, _ in unc:
+        lines.append(fs_line('print("start"); import "%s"; print("not reached");' % path, FS_FILES))
+    recs = yvlib.run_harness(ch.binary, lines, case_timeout_ms=15000, shards=min(4, len(lines)))
+    rec = recs[0]
+    if rec.tagged("?") or rec.tagged("E") or rec.crashed:
+        ctx.broken.append("harness command c17fs unavailable or failed: %s" % (rec.lines[:3],))
+        return 0
+    blocks, cur = [], None
+    for l in [x for o in rec.output for x in o.split("\n")]:
+        if l == "--":
+            cur = []
+            blocks.append(cur)
+        elif cur is not None:
+            cur.append(l)
+    readable = bool(rec.tagged("X"))
+    if rec.result[0] != "ok" or len(blocks) != len(attempts) + 1 or blocks[-1] != ["end"]:
+        ctx.violation("a program importing unreadable modules through the built-in file-system loader does not run to its end "
+                      "(every failed import is caught in the importing function)", input=lines[0], main=main,
+                      expected="%d blocks, the last one 'end', result ok" % (len(attempts) + 1),
+                      actual=[rec.output[-6:], str(rec.result), rec.messages[:3]], fs_case="all")
+        return len(lines)
+    for (name, stmts, want, kind), got in zip(attempts, blocks):
+        if name == "locked":
+            want = ["locked body", "ok"] if readable else fs_unreadable("locked", "permission denied")
+        if lines_match(want, got):
+            continue
+        # S: an unreadable module is an ImportError caught by the importer; a readable one loads.  The message text and the
+        # identity of differently spelled paths are M (the model of the current loader)
+        s_ok = kind == "M" or (want[0] == "<class ImportError>" and got[:1] == want[:1]) or \
+            ("<class ImportError>" in want and want.index("<class ImportError>") > 0 and got[:len(want) - 1] == want[:-1])
+        if s_ok:
+            ctx.corr_broken.append("impl != M (built-in file loader, case %s: %s): expected %s, got %s" % (name, stmts[:80], want, got))
+        elif len([v for v in ctx.violations if v.get("fs_case")]) < 3:
+            ctx.violation("built-in file-system loader, case '%s': %s" % (name, "an unreadable module must be an ImportError the importer can catch"
+                          if "<class ImportError>" in want else "a readable module must load as with a host loader"),
+                          input=lines[0], main=stmts, files=[f[:2] for f in FS_FILES], expected=want, actual=got, fs_case=name)
+    for (name, path, reason), r in zip(unc, recs[1:]):
+        want_msg = "Unhandled ImportError: Unable to read file '%s' (%s)." % (fs_file_of(path), reason)
+        k, v = r.result
+        msgs = [m for m in r.messages if not TRACE_RE.match(m)]
+        if r.output != ["start"] or k != "err" or v != "ImportError":
+            if len([v_ for v_ in ctx.violations if v_.get("fs_case")]) >= 4:
+                continue
+            ctx.violation("built-in file-system loader, case '%s' not caught: the run must end with an ImportError" % name,
+                          input='import "%s";' % path[:60], expected=["start", "err ImportError", want_msg],
+                          actual=r.output + ["%s %s" % (k, v)] + msgs[:2], fs_case=name)
+        elif msgs[:1] != [want_msg]:
+            ctx.corr_broken.append("impl != M (built-in file loader, uncaught %s): expected %r, got %r" % (name, want_msg, msgs[:1]))
+    return len(lines)
+
+
+def check_fs_models(ch, progs, models=None, tag="fs"):
+    """ModLang programs through the file-system loader: module i is the file <path>.yl; Spec and Mechanism as for the host
+    loader (the loader calls themselves are not observable here) -> number of programs"""
+    ctx = ch.ctx
+    if models is None:
+        models = eval_models(progs, ch.cm, tag)
+    idx = [i for i, m in enumerate(models) if m is not None and not m["spec"].startswith(("ILL", "FUEL"))]
+    lines = [fs_line(models[i]["main"], [("f", k + ".yl", v) for k, v in sorted(models[i]["mods"].items())]) for i in idx]
+    recs = yvlib.run_harness(ch.binary, lines, case_timeout_ms=15000)
+    bad = [j for j, r in enumerate(recs) if r.crashed]
+    if bad:
+        again = yvlib.run_harness(ch.binary, [lines[j] for j in bad], case_timeout_ms=30000, shards=min(4, len(bad)))
+        for j, r in zip(bad, again):
+            recs[j] = r
+    for i, rec in zip(idx, recs):
+        m = models[i]
+        io, _, ir = impl_obs(rec)
+        so, _, sr, _ = split_model(m["spec"], True)
+        ok_s = lines_match(so, io) and lines_match(sr, ir[:len(sr)]) and (len(ir) == 1) == (len(sr) == 1)
+        ok_m = True
+        if not m["mech"].startswith(("ILL", "FUEL")):
+            mo, _, mr, _ = split_model(m["mech"], True)
+            ok_m = (io, ir) == (mo, mr)
+        if not ok_s:
+            ch.mism_s += 1
+            if len([v for v in ctx.violations if v.get("fs_prog")]) < 3:
+                ctx.violation("module program run through the built-in file-system loader behaves differently from the Spec",
+                              input=wire(progs[i]), main=m["main"], modules=m["mods"], expected=m["spec"], actual=impl_str(rec),
+                              fs_prog=progs[i])
+        if not ok_m:
+            ch.mism_m += 1
+            if ch.mism_m <= 5:
+                ctx.corr_broken.append("impl != M on %s run through the built-in file-system loader | impl %s | model %s"
+                                       % (wire(progs[i]), impl_str(rec)[:300], m["mech"][:300]))
+    return len(idx)
+
+
+def check_fs_corpus(ch):
+    """tests/scripts/modules through the real loader: the scripts' own expectations"""
+    ctx = ch.ctx
+    cases = [c for c in corpus_cases() if c[4] == "0"]
+    lines = [fs_line(src, [("f", k + ".yl", v) for k, v in sorted(mods.items())]) for (_, src, mods, _, _) in cases]
+    recs = yvlib.run_harness(ch.binary, lines, case_timeout_ms=15000)
+    for (name, src, mods, exp, code), rec in zip(cases, recs):
+        out = [l for o in rec.output for l in o.split("\n")]
+        if out != exp or rec.result[0] != "ok":
+            ctx.violation("tests/scripts/modules/%s.yl through the built-in file-system loader: output differs from its header" % name,
+                          input=name, expected=exp, actual=out + [str(rec.result)] + rec.messages[:2], fs_case="corpus")
+    return len(cases)
 
 
 # ------------------------------------------------------------------------------------------------
@@ -740,6 +965,93 @@ def fiber_programs():
                       ("ok", [("def", 0, 11), ("fn", 0, [("try", [("imp", 3, 0), ("pa", 103, 0)]), ("pv", 0)]), ("tag", 10)]),
                       ("missing",),
                       ("ok", [("def", 0, 31), ("tag", 30), ("imp", 1, 0), ("pa", 101, 0), ("fn", 0, [("imp", 3, 5)]), ("try", [("fib", d, 0)])])])
+    return progs
+
+
+# ------------------------------------------------------------------------------------------------
+# a function that outlives the failed load that defined it
+#   layout: 0 main, 1 m1 ("flaky": stores its function f1 in m3.f9, then its load fails), 2 lib/m2 (a second store),
+#   3 m3 (registry: f9 the slot, f8 copies m3.f9 to lib/m2.f7), 4 lib/sub/m4 (missing)
+#   Spec: after m1 is loaded again, the OLD f1 - and every closure it creates, every function of its instance it calls -
+#   reads and writes the old instance's globals; the new module m1 keeps its own.
+
+REG = ("ok", [("fn", 9, []), ("fn", 8, [("imp", 2, 2), ("saf", 2, 7, 9)])])
+
+
+def escape_program(old_body, sib_body, cause, reload, call_style, observe, x0=100):
+    """cause: 'flag' (m3.x5 undefined during the first load; the main script defines it) | 'throw' | 'name' | 'missing'
+    (the load fails every time); reload: 'inside' (the old function imports m1 again) | 'main' | 'both'"""
+    fail = {"flag": ("pa", 1, 5), "throw": ("throw",), "name": ("pv", 3), "missing": ("imp", 4, 0)}[cause]
+    body = ([("imp", 1, 2)] if reload in ("inside", "both") else []) + old_body
+    if cause != "flag":
+        # the reload inside fails as well: keep the old function going
+        body = ([("try", [("imp", 1, 2)])] if reload in ("inside", "both") else []) + [b for b in old_body if not (b[0] in ("pa", "sa", "calla") and b[1] == 2)]
+    flaky = ("ok", [("imp", 3, 1), ("def", 0, x0), ("fn", 2, sib_body), ("fn", 1, body), ("saf", 1, 9, 1), fail, ("tag", 11)])
+    main = [("imp", 3, 0), ("try", [("imp", 1, 0)]), ("sa", 103, 5, 1)]
+    slot = ("calla", 103, 9)
+    if reload in ("main", "both"):
+        main += [("calla", 103, 8)]                                  # keep the old function: lib/m2.f7 = m3.f9
+        main += [("imp", 1, 0)] if cause == "flag" else [("try", [("imp", 1, 0)])]
+        main += [("imp", 2, 0)]
+        slot = ("calla", 102, 7)
+    if call_style == "direct":
+        main += [slot]
+    elif call_style == "try":
+        main += [("try", [slot])]
+    elif call_style == "lam":
+        main += [("lam", [slot])]
+    else:
+        main = [("fn", 5, [slot])] + main + [("fib", call_style, 5)]
+    if cause == "flag":
+        if reload == "inside":
+            main += [("imp", 1, 0)]
+        main += [o for o in observe]
+    else:
+        main += [slot] + [("calla", 103, 9)]                         # old instances again: their own state persists
+    return [("ok", main), flaky, ("ok", []), REG, ("missing",)]
+
+
+OLD_STMTS = [
+    [("pv", 0)], [("set", 0, 7)], [("lam", [("set", 0, 8), ("pv", 0)])], [("lam", [("lam", [("set", 0, 9)]), ("pv", 0)])],
+    [("call", 2)], [("fib", 1, 2)], [("fib", 2, 2)], [("lam", [("call", 2)])], [("try", [("lam", [("set", 0, 6), ("throw",)])])],
+    [("bi", 3)], [("pa", 2, 0)], [("sa", 2, 0, 55)], [("calla", 2, 2)], [("blk", [("lam", [("pv", 0)])])],
+    [("try", [("lam", [("pa", 1, 6)])]), ("pv", 0)],
+]
+SIB_BODIES = [[("pv", 0)], [("set", 0, 41), ("pv", 0)], [("lam", [("set", 0, 42)]), ("pv", 0)], [("lam", [("lam", [("pv", 0)])])]]
+OBSERVE = [("pa", 101, 0), ("calla", 101, 2), ("pa", 101, 0), ("calla", 103, 9)]
+
+
+def escape_fixed():
+    """the fixed regression programs (the first two are ModRefine.ex_escape_reload_inside / _outside)"""
+    lamset = [("lam", [("set", 0, 7), ("pv", 0)]), ("pv", 0)]
+    progs = [
+        [("ok", [("imp", 3, 0), ("try", [("imp", 1, 0)]), ("sa", 103, 5, 1), ("calla", 103, 9), ("imp", 1, 0), ("pa", 101, 0)]),
+         ("ok", [("imp", 3, 1), ("def", 0, 100), ("fn", 1, [("imp", 1, 2)] + lamset + [("pa", 2, 0)]), ("saf", 1, 9, 1), ("pa", 1, 5)]),
+         ("missing",), ("ok", [("fn", 9, [])])],
+        [("ok", [("imp", 3, 0), ("try", [("imp", 1, 0)]), ("sa", 103, 5, 1), ("calla", 103, 8), ("imp", 1, 0), ("imp", 2, 0),
+                 ("calla", 102, 7), ("pa", 101, 0)]),
+         ("ok", [("imp", 3, 1), ("def", 0, 100), ("fn", 1, lamset), ("saf", 1, 9, 1), ("pa", 1, 5)]),
+         ("ok", []), REG],
+    ]
+    for cause in ("flag", "throw", "name", "missing"):
+        for reload in ("inside", "main", "both"):
+            for style in ("direct", "try", "lam", 1, 2):
+                progs.append(escape_program(lamset + [("call", 2), ("pa", 2, 0)], SIB_BODIES[1], cause, reload, style, OBSERVE))
+    return progs
+
+
+def escape_random(rng, n):
+    progs = []
+    for _ in range(n):
+        body = []
+        for _ in range(rng.randint(1, 5)):
+            body += rng.choice(OLD_STMTS)
+        if not any(b[0] == "lam" for b in walk(body)) and rng.random() < 0.8:
+            body.insert(rng.randrange(len(body) + 1), ("lam", [("set", 0, rng.randint(60, 69)), ("pv", 0)]))
+        obs = [rng.choice(OBSERVE) for _ in range(rng.randint(1, 4))]
+        progs.append(escape_program(body, rng.choice(SIB_BODIES), rng.choice(["flag"] * 3 + ["throw", "name", "missing"]),
+                                    rng.choice(["inside", "main", "both"]), rng.choice(["direct", "direct", "try", "lam", 1, 2, 3]),
+                                    obs, x0=rng.choice([100, 100, 31])))
     return progs
 
 
@@ -863,6 +1175,12 @@ def run(ctx):
             ch.check([detuple(ctx.replay_only["prog"])], "replay", "replay")
         elif "name_family" in ctx.replay_only:
             check_name_text(ch, [ctx.replay_only["name_family"]])
+        elif "fs_prog" in ctx.replay_only:
+            check_fs_models(ch, [detuple(ctx.replay_only["fs_prog"])], tag="replay")
+        elif ctx.replay_only.get("fs_case") == "corpus":
+            check_fs_corpus(ch)
+        elif "fs_case" in ctx.replay_only:
+            check_fs_cases(ch, None if ctx.replay_only["fs_case"] == "all" else ctx.replay_only["fs_case"])
         else:
             check_probes(ch)
         return
@@ -871,6 +1189,17 @@ def run(ctx):
     nprobe = check_probes(ch)
     fibs = fiber_programs()
     ch.check(fibs, "fibers", "imports through nested fibers (fixed regression family)")
+    fib_models = ch.last_models
+    # a function that outlives the failed load that defined it: fixed regression programs + randomised instances of the shape
+    esc = escape_fixed() + escape_random(rng, 60 if quick else 900)
+    ch.check(esc, "escape", "a function outlives the failed load that defined it: it keeps the old instance's globals")
+    esc_models = ch.last_models
+    # the built-in file-system loader: directed cases, tests/scripts/modules, and model programs served as files
+    nfs = check_fs_cases(ch) + check_fs_corpus(ch)
+    kfs = 24 if quick else len(esc)
+    nfs += check_fs_models(ch, fibs + esc[:kfs], fib_models + esc_models[:kfs])
+    ch.nfs = nfs
+    ch.nesc = len(esc)
     inst, core, misinst = source_names()
     src_names = []
     for n in inst + core:
@@ -897,7 +1226,8 @@ def run(ctx):
         base = list(all_edge_sets(4))
         nshapes = nrnd = 0
         while time.time() < deadline and not ctx.violations:
-            chunk = [g.program() for _ in range(240)] + [shape_program(rng.choice(base), rng.random() < 0.5, ["ok"] * 4) for _ in range(80)]
+            chunk = [g.program() for _ in range(200)] + [shape_program(rng.choice(base), rng.random() < 0.5, ["ok"] * 4) for _ in range(60)] \
+                + escape_random(rng, 60)
             ch.check(chunk, "search", "search")
             nrnd += 240
             nshapes += 80
@@ -919,6 +1249,8 @@ def run(ctx):
         shapes.append(shape_program(es, rng.random() < 0.6, kinds))
     ch.check(shapes, "shapes", "graph shapes")
     nshapes = len(shapes)
+    kfs = 30 if quick else 600
+    ch.nfs += check_fs_models(ch, shapes[-kfs:], ch.last_models[-kfs:])
     # 3. random programs
     g = Gen(rng)
     rnd = [g.program() for _ in range(360 if quick else 4000)]
@@ -948,7 +1280,8 @@ def finish(ctx, ch, quick, ncorpus, nprobe, nshapes, nrnd, fibs, nprogs, covered
         ctx.notes.append("finding %s reproduced on %d case(s); recorded in notes/C14-findings.json (%s), not yet an open class of known_findings.json"
                          % (cls, n, "present" if cls in findings else "MISSING"))
     ctx.cov.update({
-        "evaluations": ch.evals + ncorpus + nprobe + ntext,
+        "evaluations": ch.evals + ncorpus + nprobe + ntext + getattr(ch, "nfs", 0),
+        "escaped_function_programs": getattr(ch, "nesc", 0), "file_system_loader_cases": getattr(ch, "nfs", 0),
         "startup_names_covered": covered, "startup_names_uncovered": uncovered,
         "startup_name_programs": len(nprogs), "startup_name_text_cases": ntext, "startup_names_same_in_modules_as_in_main": text_ok,
         "distinct_nontrivial": len(ch.nontrivial),
@@ -960,6 +1293,14 @@ def finish(ctx, ch, quick, ncorpus, nprobe, nshapes, nrnd, fibs, nprogs, covered
                 "fatal, legitimate imports); (ii'') for EVERY start-up name (init_built_in_globals + core.yl, from the current sources) a "
                 "mini-language program and a yarel text case using it in module bodies and exported functions at import depth 1 and 2, in a "
                 "module imported inside a function and inside a fiber (error classes thrown and caught by class, StopIter through a user iterator); "
+                "(ii-e) a function that outlives the failed load that defined it (stored in another module before the load failed; the path "
+                "loaded again inside the old function / by the main script / never successfully): the old function reads, writes, creates and "
+                "calls closures, calls functions of its instance, through try / fibers / closures - fixed regression programs + randomised "
+                "instances; (ii-f) the built-in file-system loader (no host loader installed, a fresh temporary directory): modules in the "
+                "current directory / sub-directories / through '..', one file under several spellings, missing file, path through a plain file, a "
+                "directory named like the module, over-long names, non-UTF-8 content, mode 000, a module importing a missing one, caught and "
+                "uncaught; tests/scripts/modules and ModLang programs (fibers, escape family, graph shapes with missing / uncompilable members) "
+                "served as files; "
                 "(iii) tests/scripts/modules; non-trivial = the static import graph has a cycle or a diamond AND one global name is defined with "
                 "different values in two modules (distinct wire strings counted)",
         "samples": ch.samples,
@@ -977,7 +1318,7 @@ def finish(ctx, ch, quick, ncorpus, nprobe, nshapes, nrnd, fibs, nprogs, covered
 def detuple(p):
     """JSON lists back to the tuple AST"""
     def st(x):
-        if x[0] in ("try", "blk"):
+        if x[0] in ("try", "blk", "lam"):
             return (x[0], [st(y) for y in x[1]])
         if x[0] == "fn":
             return ("fn", x[1], [st(y) for y in x[2]])
